@@ -25,7 +25,16 @@ A SUCCESSFUL response without Block1 option to a non-final block is a sequencing
 round 4 it had been put into the third class: a mistake of the verification, withdrawn).
 Requests are also sent with the application's size hint `block2=(0, False, szx)` (modelled:
 `Cfg.hint2`) and with the deprecated `block1=(0, False, szx)` hint (oracle only: the driver
-answers out-of-model).
+answers out-of-model), the latter also with an empty body.
+
+Round 4: the client's maximum exponent ranges over 0..7 -- 7 is a remote that does BERT (RFC 8323 section 6,
+`maximum_block_size_exp` 7, what a TCP/WebSocket remote reports; `maximum_payload_size` 1124 / 2148 / 4196):
+its first Block1 block is a BERT block of 1024 * (maximum_payload_size // 1024) bytes.  The reference server
+understands BERT requests and answers them with its own exponents 0..6 (modelled in Lean too, closed loop), or
+is a BERT peer that echoes 7 and serves BERT Block2 blocks of k KiB (compared through `runClient`, judged by the
+oracle).  Two deviations go on for good instead of hitting one exchange (`hollow`: every Block2 response says
+"more" and is empty; `confused`: pieces of 2x / 3x the announced size numbered as pieces), and a transfer that is
+still exchanging blocks after MAX_EXCHANGES exchanges is cut off: the verdict is "the request does not terminate".
 """
 import asyncio
 import logging
@@ -33,15 +42,16 @@ import logging
 from common import compare, load_corpus, HarnessError
 import c05_refserver as ref
 
-RULE = ("Cases = (request body length, response body length, client maximum size exponent, "
+RULE = ("Cases = (request body length, response body length, client maximum size exponent 0..7 (7 = BERT remote), "
         "maximum payload size, per-exchange size exponents chosen by the reference server, "
         "optional deviation of the server, optional Observe:0 in the request, optional size hints block2=(0,0,szx) / "
         "block1=(0,0,szx) preset by the application). Corpus first; then the full "
         "boundary table: body lengths "
         "0,1,15,16,17,...,1023,1024,1025,1123,1124,1125,2047,2048,2049,multi-kB x client szx 0..6 "
         "x reduction schedules for uploads and x server szx 0..6 x client szx for downloads, every "
-        "deviation kind (27: 17 sequencing violations incl. 2.31 without Block1, a Block2 block larger than "
-        "requested and a first block larger than the application's hint, 6 single complete responses that end the "
+        "deviation kind (29: 19 sequencing violations incl. 2.31 without Block1, a Block2 block larger than "
+        "requested, a first block larger than the application's hint, and the two that go on for good - every Block2 "
+        "response 'more' and empty from the n-th on; pieces of 2x/3x/4x the announced size -, 6 single complete responses that end the "
         "transfer - a response without Block1 option being a violation when it is successful and answers a non-final "
         "block -, 3 harmless oddities incl. Observe in an "
         "intermediate 2.31, silence) at first/middle/last position; no-Block1 responses with codes "
@@ -49,16 +59,24 @@ RULE = ("Cases = (request body length, response body length, client maximum size
         "with Block1 hint; Block2 hints 0..6 x first-response exponent below/equal/above the hint x one-block and "
         "multi-block representations x with/without upload; requests with Observe:0 whose upload needs "
         "several blocks x server putting Observe into the n-th / every 2.31 / the final response, "
+        "BERT remotes (client maximum 7) x maximum payload size 1124/2148/4196 x body lengths around every KiB "
+        "boundary x servers that answer the BERT block with exponent 6 / 5 / small / reduce again later and BERT "
+        "peers that keep 7 or go down to 6 / 4 / 2 at the second or third block, BERT downloads in blocks of 1/2/4 "
+        "KiB with reductions to 6 / 3, every deviation kind against a BERT client; the deprecated Block1 hint 0..6 x "
+        "bodies of 0 / 1 / one block / one block + 1 bytes; "
         "BlockwiseTuple arithmetic on all "
-        "(szx, max) pairs; then random cases from the seeded PRNG (lengths drawn around block "
+        "(szx 0..7, max 0..7) pairs x payload sizes 0, 1, unit-1 .. 3 units; then random cases from the seeded PRNG (lengths drawn around block "
         "boundaries, random per-block reductions, <= 35 % deviating). Non-trivial: at least two "
         "block exchanges happened; distinct by the full case description.")
 TRUSTED = ["harness/c05_refserver.py (independent RFC 7959 reference server) and the fake "
            "RequestInterface/EndpointAddress of harness/props/C05.py"]
-ASSUMPTIONS = ["size exponent 7 (BERT) does not occur (UDP); the application presets no Block options other than "
-               "the size hints block2=(0, False, szx) (modelled) and block1=(0, False, szx) (deprecated; oracle only, "
-               "never with an empty body: _extract_block raises BadRequest on it) - a request that asks for a "
-               "particular block of the response itself is not generated",
+ASSUMPTIONS = ["a remote that does BERT (maximum_block_size_exp 7) takes at least 1 KiB of payload "
+               "(maximum_payload_size >= 1024; RFC 8323: BERT needs Max-Message-Size > 1152) and its limits do not "
+               "change during a transfer (on a fresh TCP connection they do when the peer's CSM arrives: "
+               "rfc8323common.py, outside the anchors)",
+               "the application presets no Block options other than "
+               "the size hints block2=(0, False, szx) (modelled) and block1=(0, False, szx) (deprecated; oracle only) "
+               "- a request that asks for a particular block of the response itself is not generated",
                "requests carrying Observe:0 are run through the same correspondence and oracle (the Lean client "
                "machine has no Observe option: it claims that the option has no influence on the block requests "
                "and on the response, which is what is compared); what an observation delivers AFTER the first "
@@ -318,12 +336,13 @@ def oracle(case, obs):
     off = 0
     hint1, hint2 = case.get("hint1"), case.get("hint2")
     last_szx = case["szx0"] if hint1 is None else hint1
-    # upload phase: the requests that do not ask for a LATER block of the response (no Block2 option, or the
-    # application's size hint, which has block number 0)
-    b1_reqs = [v for v in obs["reqs"] if v[1] is None or v[1][0] == 0]
-    b2_reqs = [v for v in obs["reqs"] if v[1] is not None and v[1][0] != 0]
-    if obs["reqs"][:len(b1_reqs)] != b1_reqs:
-        return "a Block1-phase request was sent after the Block2 phase began", "wire:phase-order"
+    # upload phase: the requests up to the one whose response carried the first Block2 option (the first block of
+    # the response body); what follows asks for the LATER blocks of the response.  (Equivalently, as long as the
+    # client never asks for block 0 again: the requests without Block2 option or with the application's size
+    # hint, which has block number 0.)
+    b1_reqs, b2_reqs = split_phases(obs)
+    if any(v[1] is not None and v[1][0] != 0 for v in b1_reqs):
+        return "a request of the upload phase asks for a later block of the response", "wire:phase-order"
     want_b2 = None if hint2 is None else (0, False, hint2)
     for i, (b1, b2, size1, data, code, path, observe) in enumerate(b1_reqs):
         if code != method or path != ("c05", "res"):
@@ -366,6 +385,8 @@ def oracle(case, obs):
     # client's maximum, never larger than what the server used last
     got = None
     for i, (b1, b2, size1, data, code, path, observe) in enumerate(b2_reqs):
+        if b2 is None:
+            return ("request %d after the first block of the response carries no Block2 option" % i), "wire:phase-order"
         num, more, szx = b2
         if code != method or path != ("c05", "res"):
             return "Block2 request %d does not repeat method/Uri-Path" % i, "wire:method-path"
@@ -377,6 +398,9 @@ def oracle(case, obs):
         idx = len(b1_reqs) + i          # index of this request = number of replies before it
         prior = obs["replies"][len(b1_reqs) - 1:idx]
         got = sum(len(r.payload) for r in prior)
+        if num == 0:
+            return ("Block2 request %d asks for block 0 again after the first block of the response had arrived "
+                    "(%d bytes received so far)" % (i, got)), "wire:b2-not-advancing"
         if num * ref.usize(szx) != got:
             return ("Block2 request %d: NUM %d x size %d = %d but %d bytes were received so far"
                     % (i, num, ref.usize(szx), num * ref.usize(szx), got)), "wire:b2-offset"
@@ -440,7 +464,7 @@ def oracle(case, obs):
             return ("the server ended the transfer with the response (code %d, ETag %r, %d bytes) (%s) but the caller "
                     "got (code %d, ETag %r, %d bytes)" % (srv.expected[0], srv.expected[1], len(srv.expected[2]), kind,
                                                          out[1], out[2], len(out[3]))), "single-response-altered:" + kind
-        if kind in ref.ENDS_UPLOAD and any(v[1] is None or v[1][0] == 0 for v in obs["reqs"][srv.trigger_index + 1:]):
+        if kind in ref.ENDS_UPLOAD and len(b1_reqs) > srv.trigger_index + 1:
             return "the upload went on after the server's final answer (%s)" % kind, "upload-continued:" + kind
         if kind == "ignore_block1" and srv.hit_final and is_success(srv.expected[0]) and srv.recorded != [payload]:
             # only the echo of the final block's option was missing: the body had been sent completely
@@ -452,6 +476,14 @@ def oracle(case, obs):
             return "the server fell silent but the request ended with %r" % (out[:2],), "stall-resolved"
         return "", None
     raise HarnessError("oracle has no rule for server kind %r" % (kind,))
+
+
+def split_phases(obs):
+    """(requests of the upload phase, requests for later blocks of the response)"""
+    first = next((i for i, r in enumerate(obs["replies"]) if r.block2 is not None), None)
+    if first is None:
+        return list(obs["reqs"]), []
+    return list(obs["reqs"][:first + 1]), list(obs["reqs"][first + 1:])
 
 
 def is_success(code):
